@@ -285,8 +285,43 @@ func main() {
 			}
 		}
 	}
-	transitions += histories
-	validated += histories
+	// multi-byte characters: columns are byte offsets for this implementation (what the byte-splice reference says);
+	// every document ≤ 3 symbols over {a, é, newline}, every ordered range at byte granularity incl. mid-character
+	// and beyond-end positions, applied to a fresh object and as the second edit of a two-edit history
+	multibyte := 0
+	{
+		var docs []string
+		vlib.Seqs([]string{"a", "é", "\n"}, 3, func(s string, _ []int) bool { docs = append(docs, s); return true })
+		mtexts := []string{"", "x", "é", "\n"}
+		for _, doc0 := range docs {
+			if !strings.Contains(doc0, "é") {
+				continue
+			}
+			for _, e := range edits(doc0, mtexts) {
+				multibyte++
+				want := e.text
+				if !e.full {
+					want = refApply(doc0, e.s, e.e, e.text)
+				}
+				got, linesOK, p := applyReal(doc0, e)
+				h := fmt.Sprintf("open(%q) ; %s", doc0, e)
+				switch {
+				case p != nil:
+					run.Violation("panic", fmt.Sprintf("Apply panicked: %v after %s", p, h), map[string]any{"history": h})
+				case got != want:
+					run.Violation("mismatch-multibyte", fmt.Sprintf("%s: got %q want %q", h, got, want), map[string]any{"history": h, "got": got, "want": want})
+				case !linesOK:
+					run.Violation("lines-not-split", fmt.Sprintf("%s: Lines is not Split(String())", h), map[string]any{"history": h})
+				}
+				if gb, pb := applyBatch(doc0, []edit{{s: pos{0, 0}, e: pos{0, 0}, text: ""}, e}); pb != nil || gb != want {
+					run.Violation("batch-mismatch", fmt.Sprintf("open(%q) ; one notification with [no-op, %s]: got %q (panic %v) want %q", doc0, e, gb, pb, want), map[string]any{"doc": doc0})
+				}
+			}
+		}
+	}
+	run.Cov["multi_byte_document_edits"] = multibyte
+	transitions += histories + multibyte
+	validated += histories + multibyte
 	run.Cov["same_object_two_edit_histories"] = histories
 	run.Sample(map[string]any{"history": "open(\"ab\\ncd\") ; 0:0-0:2→\"x\"", "expect": "x\ncd"})
 	run.Sample(map[string]any{"history": "open(\"a\") ; 3:0-4:1→\"x\\ny\"", "expect": "ax\ny", "note": "both positions beyond the end clamp to the end"})
@@ -299,7 +334,7 @@ func main() {
 	run.Cov["multi_line_edits"] = multiLine
 	run.Cov["distinct_result_documents"] = len(distinctRes)
 	run.Cov["state_key"] = "document text (Lines == Split(String()) asserted after every step, so the text is the whole state)"
-	run.Assumption("positions are byte offsets within a line (ASCII alphabet {a,b,\\n}); UTF-16 column units are outside the quantifier's alphabet")
+	run.Assumption("positions are byte offsets within a line, as the implementation under test defines them (also for the documents with a two-byte character); UTF-16 column units, which the LSP specification prescribes, are not what this code implements and are outside the check")
 	run.Assumption("ranges are ordered (start ≤ end) as the LSP specification requires")
 	run.Finish(transitions, len(distinctRes), "every (document ≤ N over {a,b,\\n}) × every ordered range incl. beyond-end positions × 6 replacement texts, BFS over resulting documents ≤ 7 bytes; distinct = distinct resulting documents")
 }
